@@ -379,11 +379,11 @@ def independence(ctx, label, sym, hyps, hy_tab, fq):
                 # vacuity guard: without "different iterations" the same access obviously meets itself — the hypotheses must allow that
                 canary_done.append(1)
                 cs0 = [c for c in cs if c is not cs[len(list(hyps)) + len(rel) + len(w1.guards) + len(g2) + len(extra) + 1]]
-                r0, _, be0 = intarith.check_sat_int(cs0, 5.0)
+                r0, _, be0 = intarith.check_sat_int(cs0, 60.0)      # wall-clock budget sized for a fully loaded machine (normally < 1 s)
                 ctx._rec("canary", "%s.race-free canary (same iteration allowed: must be satisfiable)" % label,
                          vc.Verdict("refuted" if r0 == "sat" else ("discharged" if r0 == "unsat" else "undecided"), be0), fq)
             n += 1
-            r, env, be = intarith.check_sat_int(cs, 3.0 if ctx.tier == "quick" else 30.0)
+            r, env, be = intarith.check_sat_int(cs, 12.0 if ctx.tier == "quick" else 60.0)
             name = "%s.race-free[%s %s[%s] vs %s[%s]%s]#%d" % (label, "w/w" if e2.kind == "w" else "w/r", w1.arr.name, tm.show(w1.idx, 40), e2.arr.name, tm.show(e2.idx, 40),
                                                                 "" if same_construct else " across constructs of one barrier phase", n)
             if r == "unsat":
